@@ -918,6 +918,9 @@ class vPeriod(TimeBase):
             raise ValueError(
                 f"Start and end of a period must be of the same kind: {e}"
             ) from e
+        except OverflowError as e:
+            # start + duration is beyond the last representable date
+            raise ValueError(f"Period is out of range: {e}") from e
 
         self.params = Parameters({'value': 'PERIOD'})
         # set the timezone identifier
